@@ -223,7 +223,7 @@ RefGroupOp(s, sc, t, g) ==
 RefClose(s, op, sc) ==
     LET a0 == Feed(Acc(s, {}), CallEv(op, sc, NONE, NONE, NONE, NONE))
         es == ScopeCloseEvents(s, sc)
-    IN Feed(FeedAll(a0, es), RetEv(op, DisposalErr(es), NoneRes))
+    IN Feed(FeedAll(a0, es), RetEv(op, IF op = "cancel" THEN <<>> ELSE DisposalErr(es), NoneRes))   \* the automatic close has no caller to report to
 
 RefCloseProv(s) ==
     LET a0 == Feed(Acc(s, {}), CallEv("closeprov", NONE, NONE, NONE, NONE, NONE))
